@@ -79,7 +79,9 @@ pub fn cut_outer_edge<T: CoordsFloat>(
         (Some(v1), Some(v2)) => Vertex2::average(&v1, &v2),
         _ => retry()?,
     };
-    map.write_vertex(t, nd1, new_v)?;
+    // nd1 and nd3 already form the new vertex: embed it under its vertex ID
+    let vid_new = map.vertex_id_transac(t, nd1)?;
+    map.write_vertex(t, vid_new, new_v)?;
 
     map.unsew::<1>(t, ld)?;
     map.unsew::<1>(t, b1ld)?;
@@ -196,7 +198,9 @@ pub fn cut_inner_edge<T: CoordsFloat>(
         (Some(v1), Some(v2)) => Vertex2::average(&v1, &v2),
         _ => retry()?,
     };
-    map.write_vertex(t, nd1, new_v)?;
+    // nd1 and nd3 already form the new vertex: embed it under its vertex ID
+    let vid_new = map.vertex_id_transac(t, nd1)?;
+    map.write_vertex(t, vid_new, new_v)?;
 
     map.unsew::<2>(t, ld)?;
     map.unsew::<1>(t, ld)?;
